@@ -1,19 +1,19 @@
-\* regression config: embedded_objects not reset by finally (must violate Reusable)
+\* regression config: MOFWBEMConnection.CreateClass stores the class before it looks the superclass up and rejects it afterwards (walk over the ancestors): class X : X fails but stays in the store; a LATER compile call with instance of X never ends (must violate ImplRefinesReq in the good phase: RecursionError)
 SPECIFICATION Spec
 CONSTANTS
   MaxProd = 1
   MaxDepth = 6
-  OnlyKinds = {"instance"}
+  OnlyKinds = {"class"}
   IncludeGuard = TRUE
   NsNoneCheck = TRUE
   HexBounds = TRUE
   CtxBounds = TRUE
   ValueWrapped = TRUE
   RepoWrapped = TRUE
-  EmbFinally = FALSE
+  EmbFinally = TRUE
   RestoreOnReturn = TRUE
   EmbRestoreAll = TRUE
-  SuperCheckFirst = TRUE
+  SuperCheckFirst = FALSE
   AncestryWalk = TRUE
   GuardCanonical = TRUE
   RegisterAfterCreate = TRUE
